@@ -22,72 +22,6 @@ theorem statusRequestBytes_inj (a a' ts : Nat) (ha : a < 126) (ha' : a' < 126) (
   rw [u8n a (by omega), u8n a' (by omega)] at this
   exact this
 
-/-- The lone transmitter `x` sends at `q`: the explicit listener condition carries over, the new transmission is
-appended to the transmissions not consumed yet. -/
-theorem LLOkX.send {cfg : Cfg} {G aL me x : Nat} {b b' : Bus} {H H' : Int} {j : Nat} {st : NetStation} {r0 : TokenRing}
-    {hd : List Telegram} {dn rs : List Transmission} {l : Int} {coll : Nat}
-    (h : LLOkX cfg G aL b H j st r0 hd none dn rs l coll) (hlog : LoneLog cfg aL me x b) (hr : 0 < cfg.rate) (haL : aL < 126)
-    (q : Int) (bytes : Bytes) (hbl : 0 < bytes.length) (hq2 : q ≤ H) (hsj : b.seen.getD j 0 ≤ q)
-    (hP : q ≤ b.seen.getD j 0 + (cfg.P : Nat)) (hP100 : cfg.P ≤ 100000)
-    (htx' : b'.txs = (b.txs ++ [({ start := q, sender := x, bytes := bytes, dropped := false } : Transmission)]).filter
-      fun t => decide (b.txEnd t + 100000 > q))
-    (hseen : b'.seen = b.seen) :
-    LLOkX cfg G aL b' H' j st r0 hd none (dn.filter (fun t => decide (b.txEnd t + 100000 > q)))
-      (rs ++ [{ start := q, sender := x, bytes := bytes, dropped := false }]) l coll := by
-  obtain ⟨hon, hal, hinv, hson, hne, htto, hring, h1, h2, h4, h5, h6, h7, h8, hst, h10⟩ := h
-  have hc := hlog.chained
-  rw [h1] at hc
-  have hcrs : CChained cfg rs := (List.pairwise_append.1 hc).2.1
-  have hposrs : ∀ t ∈ rs, 0 < t.bytes.length := fun t ht =>
-    (hlog.wire haL t (by rw [h1]; exact List.mem_append_right _ ht)).2.2.1
-  have hafter := rs_end_after cfg rs _ hcrs hposrs h6
-  have hc0 := cfg.ce_pos hr 0
-  have htxe : ∀ t, b.txEnd t = cEnd cfg t := by
-    intro t; unfold Bus.txEnd cEnd; rw [byteEnd_cfg b cfg hlog.rate]
-  have hkeep : rs.filter (fun t => decide (b.txEnd t + 100000 > q)) = rs := by
-    rw [List.filter_eq_self]
-    intro t ht
-    have := hafter t ht
-    rw [htxe]
-    simp only [decide_eq_true_eq]
-    omega
-  have hkeep' : decide (b.txEnd ({ start := q, sender := x, bytes := bytes, dropped := false } : Transmission) + 100000 > q) = true := by
-    rw [htxe]
-    unfold cEnd
-    simp only [decide_eq_true_eq]
-    omega
-  have hv0 : cvis cfg ({ start := q, sender := x, bytes := bytes, dropped := false } : Transmission) (b.seen.getD j 0) = 0 := by
-    apply cvis_zero
-    simp only
-    omega
-  refine ⟨hon, hal, hinv, hson, hne, htto, hring, ?_, ?_⟩
-  · rw [htx', h1, List.filter_append, List.filter_append, hkeep]
-    simp only [List.filter_cons, hkeep', if_true, List.filter_nil, List.append_assoc]
-  rw [hseen]
-  have harr : arrived cfg (rs ++ [({ start := q, sender := x, bytes := bytes, dropped := false } : Transmission)]) (b.seen.getD j 0) =
-      arrived cfg rs (b.seen.getD j 0) := by
-    rw [arrived_append]
-    unfold arrived
-    simp only [List.map_cons, List.map_nil, List.flatten_cons, List.flatten_nil, hv0, List.take_zero, List.append_nil]
-  refine ⟨fun o ho => h2 o (List.mem_filter.1 ho).1, by rw [harr]; exact h4, by rw [harr]; exact h5, ?_, h7, h8, hst, ?_⟩
-  · intro t rest hrs
-    cases rs with
-    | nil =>
-      simp only [List.nil_append, List.cons.injEq] at hrs
-      obtain ⟨rfl, -⟩ := hrs
-      rw [hv0]; exact hbl
-    | cons t0 r0' =>
-      simp only [List.cons_append, List.cons.injEq] at hrs
-      obtain ⟨rfl, -⟩ := hrs
-      exact h6 _ _ rfl
-  · have hn : nextArr cfg H' (rs ++ [({ start := q, sender := x, bytes := bytes, dropped := false } : Transmission)]) (b.seen.getD j 0) ≤
-        nextArr cfg H rs (b.seen.getD j 0) := by
-      unfold nextArr
-      cases rs with
-      | nil => simp only [List.nil_append, hv0]; omega
-      | cons t r => exact Int.le_refl _
-    omega
-
 /-- **The claimant polls the listener's address**: the poll of `duo_claimant` in which the claimant sends the GAP
 request to the listener's address establishes the start condition `HQ0` of the reply handshake (`hpy`: the listener
 runs at the configured rate; `hpb`: the claimant has no stale pending-byte count — neither is tracked by `Duo`). -/
@@ -98,10 +32,10 @@ theorem duo_request_hq0 {cfg : Cfg} {G : Nat} {n : Net} {x y : Nat} {stx sty : N
       ((stage.rest cfg stx.s.p.address stx.s.p.hsa : Nat) : Int) ≤ B)
     (now : Int) (htl : tl ≤ now) (hown : n.bus.seen.getD x 0 < now) (hgx : now ≤ n.bus.seen.getD x 0 + (cfg.P : Nat))
     (hgy : now ≤ n.bus.seen.getD y 0 + (cfg.P : Nat))
-    (hpy : sty.s.p.rate = cfg.rate ∧ sty.s.p.slotBits = cfg.slotBits)
     (n' : Net) (c : Ctx) (hp : n.poll x now = (n', [], some (.ok c)))
-    (htx : c.tx = some (statusRequestBytes sty.s.p.address stx.s.p.address)) (hpb : c.s.pendingBytes = 0) :
-    ∃ dn rs lY coll, HQ0 cfg G n' x y (upSt stx c) sty now r0 hd dn rs lY coll now := by
+    (htx : c.tx = some (statusRequestBytes sty.s.p.address stx.s.p.address)) :
+    ∃ dn rs lY coll, HQ0 cfg G n' x y (upSt stx c) sty now r0 hd dn rs lY coll now ∧
+      countTok (hd ++ rs.map telOf) ≤ 2 := by
   have hr := hok.rate
   have hs := d.solo
   have hsl := SStage.slack_ge cfg stage
@@ -130,7 +64,7 @@ theorem duo_request_hq0 {cfg : Cfg} {G : Nat} {n : Net} {x y : Nat} {stx sty : N
     have := hinvY.addr; have := hinvY.hsa; omega
   have haL := d.aL_lt
   unfold FormOut at hout
-  rcases hout with ⟨-, a2, -⟩ | ⟨stage', l', hS, hs', hv', hp', htxi, hB', hΦ, hnl⟩
+  rcases hout with ⟨-, a2, -⟩ | ⟨stage', l', hS, hs', hv', hp', htxi, hB', hΦ, hnl, hk2, htok, hpbq⟩
   · rw [htx] at a2; exact absurd (Option.some.inj a2).symm (hlen3 _ _ _)
   have haddr : (upSt stx c).s.p.address = stx.s.p.address := by show c.s.p.address = _; rw [hp']
   rcases htxi with h0 | h0 | ⟨a, h1, h2, h3, h4, h5⟩
@@ -173,16 +107,19 @@ theorem duo_request_hq0 {cfg : Cfg} {G : Nat} {n : Net} {x y : Nat} {stx sty : N
     have hh := List.append_inj_left' this rfl
     rw [hh]
     exact List.filter_sublist
-  obtain ⟨dn, rs, lY, coll, hX⟩ := LLOkX.ofLLOk (d.lis.other x now hxy)
+  obtain ⟨dn, rs, lY, coll, hX0, hcnt⟩ := d.lisX
+  have hX := hX0.other x now hxy
+  have hpy := d.py
+  have hpb : c.s.pendingBytes = 0 := by rw [hpbq]; exact d.pbx
   have hl1 : LoneLog cfg stx.s.p.address sty.s.p.address x { n.bus with seen := n.bus.seen.set x now } :=
     ⟨d.lone.rate, d.lone.corrupt, d.lone.chained, d.lone.live, d.lone.own, d.lone.kinds⟩
   have hX' := LLOkX.send (H' := now + (cfg.b66 : Nat) + (cfg.slot : Nat) + (cfg.P : Nat)) (b' := n'.bus) hX hl1 hr haL now
     (statusRequestBytes sty.s.p.address stx.s.p.address) (by rw [statusRequestBytes_length]; omega) (by omega)
     (by rw [hsy]; exact Int.le_trans d.seens.2 htl) (by rw [hsy]; exact hgy) hP100 (by rw [hbus, hspec]) (by rw [hbus, e4])
   have htxsX : n.bus.txs = dn ++ rs := hX.2.2.2.2.2.2.2.1
-  refine ⟨_, _, lY, coll, hS, hs'.1, hs'.2, ?_, ?_, ?_,
+  refine ⟨_, _, lY, coll, ⟨hS, .inl hs'.1, hs'.2, ?_, ?_, ?_,
     by rw [hset, List.getElem?_set_ne hxy]; exact d.gy, d.yx, by rw [hbus, e4]; simp only [List.length_set]; exact d.ys,
-    by rw [hset, List.length_set]; exact d.yl, by rw [haddr]; exact hX', ?_, hpy, hpb, ?_, ?_⟩
+    by rw [hset, List.length_set]; exact d.yl, by rw [haddr]; exact hX', ?_, hpy, hpb, ?_, ?_, (by show RingView [c.s.p.address] c.s.p.address c.s.ring; rw [hp']; exact hv')⟩, ?_⟩
   · rw [haddr, hbus]
     refine ⟨e3.trans d.lone.rate, e5.trans d.lone.corrupt, ?_, ?_, ?_, ?_⟩
     · rw [e1]
@@ -224,5 +161,12 @@ theorem duo_request_hq0 {cfg : Cfg} {G : Nat} {n : Net} {x y : Nat} {stx sty : N
     · simp only [List.mem_singleton] at ht; subst ht; exact Int.le_refl _
   · rw [hseen, hbus, e4, hsy]
     exact ⟨Int.le_refl _, Int.le_trans d.seens.2 htl⟩
+  · have et : telOf (rqTx x stx.s.p.address sty.s.p.address now) = reqTel sty.s.p.address stx.s.p.address :=
+      telOf_req _ _ _ (by omega) (by omega) rfl
+    have : countTok [telOf (rqTx x stx.s.p.address sty.s.p.address now)] = 0 := by rw [et]; rfl
+    rw [List.map_append, ← List.append_assoc, countTok_append]
+    have e3 : List.map telOf [({ start := now, sender := x, bytes := statusRequestBytes sty.s.p.address stx.s.p.address, dropped := false } : Transmission)] = [telOf (rqTx x stx.s.p.address sty.s.p.address now)] := rfl
+    rw [e3]
+    omega
 
 end PV
